@@ -95,9 +95,14 @@ Definition empties (a : archive) : list (nat * entry) :=
 (* the data members of folder k with the header index they are stored under *)
 Definition folder_members (a : archive) (k : nat) : list (nat * entry) :=
   filter (fun m => in_folder k (snd m)) (all_files a).
-(* folders[k].files as iterated by the worker: ArchiveFileList(offset = header index of the
-   folder's first data member); __getitem__(index) = ArchiveFile(index + offset, ...) *)
-Definition folder_files (a : archive) (k : nat) : list (nat * entry) :=
+(* folders[k].files as iterated by the worker.
+   stored = false (py7zr as it is): ArchiveFileList(offset = header index of the folder's first
+   data member); __getitem__(index) = ArchiveFile(index + offset, ...).
+   stored = true: the repaired numbering (each member keeps the header index it is stored
+   under).  The harness observes which of the two the implementation uses (ids of
+   folders[k].files) and runs the model with that flag; every theorem is stated for both. *)
+Definition folder_files (stored : bool) (a : archive) (k : nat) : list (nat * entry) :=
+  if stored then folder_members a k else
   match folder_members a k with
   | [] => []
   | (off, _) :: _ => map (fun jm => (off + fst jm, snd (snd jm))) (enumerate (folder_members a k))
@@ -144,13 +149,13 @@ Definition is_some {A} (o : option A) : bool := match o with Some _ => true | No
 
 (* ---- Worker.extract (skip_notarget=True; sequential order; the threaded variant runs the
    same per-folder calls concurrently) *)
-Definition worker (a : archive) (reg : nat -> option str) : list (str * bytes) :=
+Definition worker (stored : bool) (a : archive) (reg : nat -> option str) : list (str * bytes) :=
   let nf := numfolders a in
   if nf =? 0 then extract_single reg [] (empties a)
   else if nf =? 1 then extract_single reg (folder_stream a 0) (all_files a)
   else extract_single reg [] (empties a) ++
        flat_map (fun k =>
-                   let fs := folder_files a k in
+                   let fs := folder_files stored a k in
                    if existsb (fun m => is_some (reg (fst m))) fs
                    then extract_single reg (folder_stream a k) fs
                    else [])
@@ -175,17 +180,17 @@ Record result := mkR { delivered : list (str * bytes); mkdirs : list path }.
    mkdirs: the `mkdir(parents=True)` calls: the selected directory entries (target_dirs; the
    code sorts them, immaterial for the set of directories made), then
    `fileish.parent.mkdir(parents=True, exist_ok=True)` per delivered member. *)
-Definition run (to_dir : bool) (a : archive) (p : str -> bool) : result :=
-  let d := worker a (reg_of a p) in
+Definition run (stored to_dir : bool) (a : archive) (p : str -> bool) : result :=
+  let d := worker stored a (reg_of a p) in
   mkR d (if to_dir
          then map (fun e => comps (ename e)) (filter (fun e => p (ename e) && is_dir e) a)
               ++ map (fun x => removelast (comps (fst x))) d
          else []).
 
-Definition impl_extract (to_dir : bool) (a : archive) (T : list str) (recursive : bool) : result :=
-  run to_dir a (sel T recursive).
+Definition impl_extract (stored to_dir : bool) (a : archive) (T : list str) (recursive : bool) : result :=
+  run stored to_dir a (sel T recursive).
 (* extractall (and extract(targets=None)): no filter *)
-Definition impl_extract_all (to_dir : bool) (a : archive) : result := run to_dir a (fun _ => true).
+Definition impl_extract_all (stored to_dir : bool) (a : archive) : result := run stored to_dir a (fun _ => true).
 
 Definition dirs_created (r : result) : list path := flat_map mkdir_p (mkdirs r).
 
@@ -255,11 +260,11 @@ Fixpoint nat_list_eqb (l l' : list nat) : bool :=
   | x :: r, y :: r' => (x =? y) && nat_list_eqb r r'
   | _, _ => false
   end.
-Definition ids_consistentb (a : archive) : bool :=
+Definition ids_consistentb (stored : bool) (a : archive) : bool :=
   (numfolders a <=? 1) ||
-  forallb (fun k => nat_list_eqb (map fst (folder_files a k)) (map fst (folder_members a k)))
+  forallb (fun k => nat_list_eqb (map fst (folder_files stored a k)) (map fst (folder_members a k)))
           (seq 0 (numfolders a)).
-Definition ids_consistent (a : archive) : Prop := ids_consistentb a = true.
+Definition ids_consistent (stored : bool) (a : archive) : Prop := ids_consistentb stored a = true.
 
 (* ---- dispatcher (FN 180-199) -------------------------------------------------------------- *)
 Local Open Scope Z_scope.
@@ -293,8 +298,8 @@ Definition spec_pred_of (t : tree) (recursive : bool) : str -> bool :=
 
 Definition select_dispatch (fn : Z) (a : tree) : tree :=
   match fn with
-  (* FN 180 sel_impl_extract : (to_dir archive opt_targets recursive) -> (delivered mkdirs dirs) *)
-  | 180 => t_result (run (of_bool (tnth a 0)) (of_archive (tnth a 1))
+  (* FN 180 sel_impl_extract : (to_dir archive opt_targets recursive stored) -> (delivered mkdirs dirs) *)
+  | 180 => t_result (run (of_bool (tnth a 4)) (of_bool (tnth a 0)) (of_archive (tnth a 1))
                          (pred_of (tnth a 2) (of_bool (tnth a 3))))
   (* FN 181 sel_spec_extract : (to_dir archive opt_targets recursive) -> (delivered mkdirs dirs) *)
   | 181 => t_result (spec_run (of_bool (tnth a 0)) (of_archive (tnth a 1))
@@ -304,16 +309,17 @@ Definition select_dispatch (fn : Z) (a : tree) : tree :=
                t_bool (spec_sel (of_targets (tnth a 0)) (of_bool (tnth a 1)) (of_str (tnth a 2)))]
   (* FN 183 sel_remove_trailing_slash : str -> str *)
   | 183 => t_bytes (remove_trailing_slash (of_str a))
-  (* FN 184 sel_folder_ids : archive -> (numfolders ((assigned_id real_id)...)...) *)
-  | 184 => let ar := of_archive a in
+  (* FN 184 sel_folder_ids : (archive stored) -> (numfolders ((assigned_id real_id)...)...) *)
+  | 184 => let ar := of_archive (tnth a 0) in
+           let stored := of_bool (tnth a 1) in
            TL [t_nat (numfolders ar);
                TL (map (fun k => TL (map (fun mm => TL [t_nat (fst (fst mm)); t_nat (fst (snd mm))])
-                                         (combine (folder_files ar k) (folder_members ar k))))
+                                         (combine (folder_files stored ar k) (folder_members ar k))))
                        (seq 0 (numfolders ar)))]
-  (* FN 185 sel_conditions : (archive targets) -> (wf prefix_free targets_prefix_ok ids_consistent) *)
+  (* FN 185 sel_conditions : (archive targets stored) -> (wf prefix_free targets_prefix_ok ids_consistent) *)
   | 185 => let ar := of_archive (tnth a 0) in
            TL [t_bool (wf_archiveb ar); t_bool (prefix_free_namesb ar);
-               t_bool (targets_prefix_okb ar (of_targets (tnth a 1))); t_bool (ids_consistentb ar)]
+               t_bool (targets_prefix_okb ar (of_targets (tnth a 1))); t_bool (ids_consistentb (of_bool (tnth a 2)) ar)]
   (* FN 186 sel_comps : str -> path *)
   | 186 => t_path (comps (of_str a))
   | _ => TL [TI (-2)]
